@@ -222,7 +222,7 @@ pub fn run(ctx: &Ctx, model: &mut Model, rep: &mut Report) {
             None => rep.resolved_findings.push(json!({"id": f.id, "what": f.what})),
         }
     }
-    let n = if ctx.thorough { 600 } else { 60 };
+    let n = if ctx.thorough { 600 } else { 120 };
     for i in 0..n {
         let mut r = Rng::for_case(ctx.seed ^ 0xC14, i as u64);
         let wild = i % 4 == 3;
